@@ -65,6 +65,13 @@ def cases(ctx):
         bbt = r.choice([cg.BlackBox("ff", ["clk", "d"], ["q"]), cg.BlackBox("jk", ["CK", "K", "d"], ["q", "qn"])])
         add_flops_typed(r, seq, r.randint(1, 2), bbt)
         ign = r.choice([None, "clk", ["clk"], "CK", ["CK"], ["q"], "qn", ["K", "CK"], "d"])
+        if r.random() < 0.3:
+            # hierarchical instance name: the pin is what follows the LAST dot
+            import networkx as nx
+
+            old = sorted(seq.blackboxes)[0]
+            seq.blackboxes["core." + old] = seq.blackboxes.pop(old)
+            nx.relabel_nodes(seq.graph, {n: "core." + n for n in list(seq.graph.nodes) if n.startswith(old + ".")}, copy=False)
         yield {"op": "strip_blackboxes", "c": proj(seq), "ignore": ign, "src": "STRIP"}
 
 
